@@ -9,7 +9,8 @@
 (***************************************************************************)
 EXTENDS PaintTraverse, TraceIO
 
-JG(nodes) == [i \in DOMAIN nodes |-> [kind |-> nodes[i].kind, kids |-> nodes[i].kids]]
+JG(nodes) == [i \in DOMAIN nodes |-> [kind |-> nodes[i].kind, kids |-> nodes[i].kids,
+                                       clip |-> "clip" \in DOMAIN nodes[i] /\ nodes[i].clip]]
 
 TPaint ==
   /\ IsEvent("paint")
